@@ -86,9 +86,19 @@ func (h *connIDManager) add(f *wire.NewConnectionIDFrame) error {
 			ErrorMessage: "received NEW_CONNECTION_ID frame but zero-length connection IDs are in use",
 		}
 	}
+	// A retransmitted frame for a connection ID that is in use - as the active one, or for probing a path -
+	// must neither retire that connection ID nor store it a second time.
+	inUse := f.SequenceNumber == h.activeSequenceNumber
+	for _, entry := range h.pathProbing {
+		if entry.SequenceNumber == f.SequenceNumber {
+			inUse = true
+		}
+	}
 	// If the NEW_CONNECTION_ID frame is reordered, such that its sequence number is smaller than the currently active
 	// connection ID or if it was already retired, send the RETIRE_CONNECTION_ID frame immediately.
-	if f.SequenceNumber < max(h.activeSequenceNumber, h.highestProbingID) || f.SequenceNumber < h.highestRetired {
+	// (Connection IDs for path probing are taken from the front of the queue: every sequence number up to the highest
+	// one used for probing is either still in use or has been retired, including that highest one itself.)
+	if !inUse && (f.SequenceNumber < h.activeSequenceNumber || (h.pathProbing != nil && f.SequenceNumber <= h.highestProbingID) || f.SequenceNumber < h.highestRetired) {
 		h.queueControlFrame(&wire.RetireConnectionIDFrame{
 			SequenceNumber: f.SequenceNumber,
 		})
@@ -121,7 +131,7 @@ func (h *connIDManager) add(f *wire.NewConnectionIDFrame) error {
 		h.highestRetired = f.RetirePriorTo
 	}
 
-	if f.SequenceNumber == h.activeSequenceNumber {
+	if inUse {
 		return nil
 	}
 
